@@ -77,8 +77,8 @@ theorem rad_fac_sphere_area (n : ℕ) (r : ℝ) (hr : 0 < r) :
 /-! ## 2. `spectrum`, `spectral_rad_pdf` -/
 
 /-- `spectrum = var · density` -/
-theorem spectrum_def (var : ℝ) (dens : ℝ → ℝ) (k : ℝ) : spectrum var dens k = var * dens k := by
-  unfold spectrum; ring
+theorem spectrum_def (var : ℝ) (dens : ℝ → ℝ) (k : ℝ) : Model.Spectral.spectrum var dens k = var * dens k := by
+  unfold Model.Spectral.spectrum; ring
 
 theorem finish_real (x : ℝ) : finish x = max x 0 := by
   unfold finish
@@ -91,7 +91,7 @@ theorem finish_real (x : ℝ) : finish x = max x 0 := by
     clipped at `0` -/
 theorem rad_pdf_def (d : ℕ) (dens : ℝ → ℝ) (r : ℝ) :
     radPdf d dens r =
-      if 1 < d ∧ |r| ≤ 1e-8 then 0 else max (radFac d |r| * |dens |r||) 0 := by
+      if 1 < d ∧ |r| ≤ 1e-8 then 0 else max (radFac d |r| * abs (dens |r|)) 0 := by
   unfold radPdf isclose0
   simp only [fabs_real, abs_abs, finish_real, Nat.cast_zero, decide_eq_true_eq, gt_iff_lt]
   by_cases h1 : 1 < d <;> by_cases h2 : |r| ≤ 1e-8 <;> simp [h1, h2]
